@@ -1,10 +1,18 @@
-//! C11: h3::qpack::{encode_stateless, decode_stateless} through the public API (no hooks).
+//! C11: h3::qpack::{encode_stateless, decode_stateless} through the public API (no hooks), except q.hpe.
 //!   q.enc  <fields>             -> ok <hex> size=<n> | err
 //!   q.dec  <max|-> <hex>        -> ok <fields> size=<n> | err toolong <n> | err decomp <Variant>
 //!   q.decc <max|-> <hex.hex..>  -> same, the input handed over as a multi-chunk Buf
+//!   q.hpe  <max> <b> <m> <k> <eic> <s> <delta>
+//!          the Encoded Field Section Prefix written by `HeaderPrefix::encode` with a NON-zero Required Insert Count / Base:
+//!          a fresh stateful Encoder (table capacity <max>) first encodes <b> new fields on stream 0 (b insertions), then on
+//!          stream 4 a section referencing the old entry with absolute index <m> (0 = none) and <k> new fields.  The prefix of
+//!          that second section is the result: -> ok <prefix hex> parts=<eic>,<s>,<delta> (the parts as `HeaderPrefix::new`
+//!          computes them for the encoder's own required/base/total); <eic> <s> <delta> of the line are what the model encodes.
 //! fields = comma list of <namehex>:<valuehex> (`-` for an empty string), `-` for the empty list.
 use bytes::{Bytes, BytesMut};
 use h3::qpack::{decode_stateless, encode_stateless, DecoderError, HeaderField};
+use h3::verif::qpack::strings::prefix_int_decode;
+use h3::verif::qpack::tables::{header_prefix_new, Fields, VEncoder};
 use h3v::{hex, run_lines, unhex, ChunkBuf};
 
 fn parse_fields(s: &str) -> Vec<HeaderField> {
@@ -69,8 +77,49 @@ fn canon(r: String) -> String {
     }
 }
 
+/// q.hpe: see the module comment
+fn run_hpe(max: usize, b: usize, m: usize, k: usize) -> String {
+    let mut enc = match VEncoder::new(max, 1000) {
+        Ok(e) => e,
+        Err(e) => return format!("err new {}", e),
+    };
+    let old = |i: usize| (format!("a{}", i).into_bytes(), b"v".to_vec());
+    if b > 0 {
+        let first: Fields = (0..b).map(old).collect();
+        match enc.encode(0, &first) {
+            Ok(e) if e.required_ref == b => {}
+            Ok(e) => return format!("driver-error first-section required_ref={}", e.required_ref),
+            Err(e) => return format!("err first {}", e),
+        }
+    }
+    let mut second: Fields = Vec::new();
+    if m > 0 {
+        second.push(old(m - 1));
+    }
+    for j in 0..k {
+        second.push((format!("b{}", j).into_bytes(), b"v".to_vec()));
+    }
+    let e = match enc.encode(4, &second) {
+        Ok(e) => e,
+        Err(e) => return format!("err second {}", e),
+    };
+    let mut cur = &e.block[..];
+    if prefix_int_decode(8, &mut cur).is_err() || prefix_int_decode(7, &mut cur).is_err() {
+        return "err prefix-unreadable".into();
+    }
+    let plen = e.block.len() - cur.len();
+    let (eic, s, d) = header_prefix_new(e.required_ref, b, b + k, max);
+    format!("ok {} parts={},{},{}", hex(&e.block[..plen]), eic, s as u8, d)
+}
+
 fn main() {
     run_lines(|ws| match ws {
+        ["q.hpe", max, b, m, k, _eic, _s, _delta] => run_hpe(
+            max.parse().unwrap(),
+            b.parse().unwrap(),
+            m.parse().unwrap(),
+            k.parse().unwrap(),
+        ),
         // all inputs PREFIX ++ suffix, suffix of N octets in lexicographic order: digest of the canonical results
         ["q.blk", prefix, n] => {
             let p = unhex(prefix);
